@@ -135,6 +135,35 @@ def main(argv):
                 if r2[0] != "ok" or [v for _, v in r2[1]] != [d.get(format(i, "b").zfill(n), 0) for i in range(2 ** n)]:
                     if oracle_fail is None:
                         oracle_fail = (n, t, "second application does not return the completed table in the original orientation")
+    # "all values": the function never computes with the values, so negative numbers, zeros of any type, nan, inf, huge ints and
+    # non-numbers must come back as the very same objects under the reversed key (the model is polymorphic in the value type)
+    def special_table(n):
+        keys = [format(i, "b").zfill(n) for i in range(2 ** n) if ck.rng.random() < ck.rng.choice([0.3, 0.7, 1.0])] or ["1" * n]
+        ck.rng.shuffle(keys)
+        mk = [lambda j: -3 - j, lambda j: -0.0175 - j * 1e-9, lambda j: float("nan"), lambda j: float("0.0"), lambda j: float("-0.0"), lambda j: float("inf"),
+              lambda j: 2 ** 70 + j, lambda j: 5e-324, lambda j: 0, lambda j: complex(0, -1 - j), lambda j: (j, "tuple"), lambda j: 0.5125 + j * 1e-9]
+        return [(k, ck.rng.choice(mk)(j)) for j, k in enumerate(keys)]
+    for rep in range(60 if ck.tier == "quick" else 600):
+        n = ck.rng.randint(1, 4); t = special_table(n)
+        ck.count("special_values", 1, key=(n, rep))
+        try:
+            out = list(fix_counts(dict(t), n).items())
+        except Exception as e:  # noqa
+            why = "raised %s on a table with values %r" % (type(e).__name__, [v for _, v in t][:4]); out = None
+        if out is not None:
+            why = None
+            d = dict(t)
+            if [k for k, _ in out] != [format(i, "b").zfill(n) for i in range(2 ** n)]:
+                why = "keys are not all 2^n strings in ascending order"
+            else:
+                for k, v in out:
+                    if k[::-1] in d:
+                        if v is not d[k[::-1]]:
+                            why = "the entry %r: %r does not appear under its reversed key with its value unchanged (got %r)" % (k[::-1], d[k[::-1]], v); break
+                    elif not (type(v) is int and v == 0):
+                        why = "key %s maps to %r, expected 0" % (k, v); break
+        if why and oracle_fail is None:
+            oracle_fail = (n, [(k, repr(v)) for k, v in t], why)
     if oracle_fail:
         n, t, why = oracle_fail
         ck.report("oracle", "fix_counts violates its specification: %s (n=%d, table=%s)" % (why, n, t[:8]), {"n": n, "table": t, "why": why})
